@@ -31,6 +31,7 @@ def run(tier, selftest=False, only=None):
         for _ in range(150 if tier == "quick" else 1500):
             m = rd_model.random_model(rng)
             cs.append((m, [[rng.choice([Fr(0), Fr(1), Fr(2), Fr(5, 2), Fr(1, 2)]) for _ in range(m.ncells())] for _ in m.species]))
+        rd_law.model_check(rep, cs, "C02")
         spec = rd_eval.evaluate("flaw", rd_law.spec_items(cs), rep)
         bad = [i for i, sp in enumerate(spec) if not sp[0]["eulerConserves"]]
         rep.extra["euler_exact_steps_checked"] = len(spec)
